@@ -117,6 +117,7 @@ ensures
     forall|k: int| old(errors)@.len() <= k < final(errors)@.len() ==> (#[trigger] final(errors)@[k]).1 == timing_literal.sp_syntax().sp_text_range(),      //@C12:unit-diagnostic-on-the-node''')
     # source_file.rs: the reporting interface hands out the diagnostic's own range
     sf = U.file('crates/oq3_source_file/src/source_file.rs')
+    sf.fn('range_to_span', ret='r', props=P, spec='ensures r.start == range.start.raw, r.end == range.end.raw,      //@C12:printed-span-is-the-range')
     sf.item('trait', 'ErrorTrait')
     sf.impl('ErrorTrait for oq3_syntax::SyntaxError', [
         ('message', dict(props=P, trusted=True, note='&str -> String (to_string)')),
